@@ -78,6 +78,10 @@ template <size_t A, size_t B> D bf_x2(const S<A> &a, const S<B> &b) { return Bil
 template <size_t A, size_t B> D bf_fac(const S<A> &a, const S<B> &b, const S<1> &v) {
   return BilinearForm{Dx<1>{}, SplineOperator{v} * Dx<1>{}}(a, b);
 }
+// two operators of the same C++ type but with different state
+template <size_t A, size_t B> D bf_aff(const S<A> &a, const S<B> &b, const D &c, const D &d) {
+  return BilinearForm{Dx<1>{} + c, Dx<1>{} + d}(a, b);
+}
 template <size_t A> D lf_id(const S<A> &a) { return LinearForm{}(a); }
 template <size_t A> D lf_x1(const S<A> &a) { return LinearForm{X<1>{}}(a); }
 template <size_t A> D lf_x1d1(const S<A> &a) { return LinearForm{X<1>{} * Dx<1>{}}.evaluate(a); }
@@ -111,6 +115,7 @@ void inst2() {
   S<A> a{bspline::support::Grid<D>{0.0, 1.0}};
   S<B> b{a.getSupport().getGrid()};
   S<1> v{a.getSupport().getGrid()};
+  (void)bf_aff(a, b, 2.0, 3.0);
   (void)bf_id(a, b); (void)bf_x1d1(a, b); (void)bf_d1(a, b); (void)bf_x2(a, b); (void)bf_fac(a, b, v);
   (void)quad2(a, b); (void)quad5(a, b);
 }
